@@ -98,7 +98,10 @@ func readBlobString(i *bufio.Reader) (m RedisMessage, err error) {
 				m.setString(sb.String())
 				return m, nil
 			}
-			sb.Grow(int(length))
+			if length < 0 {
+				return RedisMessage{}, errors.New(unexpectedNegLen)
+			}
+			sb.Grow(int(min(length, maxPreallocBytes)))
 			if _, err = io.CopyN(&sb, i, length); err != nil {
 				return RedisMessage{}, err
 			}
@@ -211,9 +214,20 @@ func readB(i *bufio.Reader) (*byte, int64, error) {
 	if length == -1 {
 		return nil, 0, errOldNull
 	}
-	bs := make([]byte, length)
+	if length < 0 {
+		return nil, 0, errors.New(unexpectedNegLen)
+	}
+	// do not trust the declared length before the data arrives: grow with what has been received
+	bs := make([]byte, min(length, maxPreallocBytes))
 	if _, err = io.ReadFull(i, bs); err != nil {
 		return nil, 0, err
+	}
+	for int64(len(bs)) < length {
+		n := len(bs)
+		bs = append(bs, make([]byte, min(length-int64(n), int64(n)))...)
+		if _, err = io.ReadFull(i, bs[n:]); err != nil {
+			return nil, 0, err
+		}
 	}
 	if _, err = i.Discard(2); err != nil {
 		return nil, 0, err
@@ -236,13 +250,17 @@ func readE(i *bufio.Reader) (*RedisMessage, int64, error) {
 }
 
 func readA(i *bufio.Reader, length int64) (*RedisMessage, int64, error) {
-	var err error
-
-	msgs := make([]RedisMessage, length)
-	for n := range length {
-		if msgs[n], err = readNextMessage(i); err != nil {
+	if length < 0 {
+		return nil, 0, errors.New(unexpectedNegLen)
+	}
+	// do not trust the declared length before the elements arrive
+	msgs := make([]RedisMessage, 0, min(length, maxPreallocMsgs))
+	for range length {
+		m, err := readNextMessage(i)
+		if err != nil {
 			return nil, 0, err
 		}
+		msgs = append(msgs, m)
 	}
 	return unsafe.SliceData(msgs), length, nil
 }
@@ -386,6 +404,12 @@ func flushCmd(o *bufio.Writer, cmd []string) (err error) {
 }
 
 const (
+	maxPreallocBytes = 1 << 16 // bytes reserved upfront for a declared blob length
+	maxPreallocMsgs  = 1 << 10 // elements reserved upfront for a declared aggregate length
+)
+
+const (
+	unexpectedNegLen   = "received unexpected negative length"
 	unexpectedNoCRLF   = "received unexpected simple string message ending without CRLF"
 	unexpectedNumByte  = "received unexpected number byte: "
 	unknownMessageType = "received unknown message type: "
